@@ -348,7 +348,11 @@ func (c *Ctx) checkInvs(st *State, id string, ls *LoopSpec, pos token.Pos, extra
 		if phase == "" {
 			st.assume(t)
 		} else {
-			c.addObl(st, "inv", fmt.Sprintf("inv.%s.%d.%s", id, i+1, phase), t, fmt.Sprintf("loop %s invariant `%s` (%s)", id, inv.Src, phase))
+			nm := "inv"
+			if inv.Optional {
+				nm = "optinv" // proof hint: may vanish with the local it mentions, never part of the claim
+			}
+			c.addObl(st, "inv", fmt.Sprintf("%s.%s.%d.%s", nm, id, i+1, phase), t, fmt.Sprintf("loop %s invariant `%s` (%s)", id, inv.Src, phase))
 		}
 	}
 }
@@ -395,11 +399,19 @@ func (c *Ctx) pointClauses(s *State, point string, pos token.Pos) {
 		env := c.invEnv(s, pos, nil)
 		t, err := env.trBool(pc.C.Expr)
 		if err != nil {
+			if pc.C.Optional && strings.Contains(err.Error(), "unknown identifier") {
+				c.note(fmt.Sprintf("optional %s at %s dropped: %v", pc.C.Kind, point, err))
+				continue
+			}
 			c.abort("%s @ %s: %v", pc.C.Kind, point, err)
 			return
 		}
 		if pc.C.Kind == "assert" {
-			c.addObl(s, "assert", fmt.Sprintf("assert@%s.%d", strings.ReplaceAll(point, " ", "_"), n), t, "proof step `"+pc.C.Src+"` at "+point)
+			nm := "assert"
+			if pc.C.Optional {
+				nm = "optassert"
+			}
+			c.addObl(s, "assert", fmt.Sprintf("%s@%s.%d", nm, strings.ReplaceAll(point, " ", "_"), n), t, "proof step `"+pc.C.Src+"` at "+point)
 		} else {
 			c.note("assume clause at " + point + ": " + pc.C.Src)
 		}
